@@ -21,6 +21,7 @@
 #include <cstdarg>
 #include <cstdio>
 #include <cstring>
+#include <functional>
 #include <iostream>
 #include <stdexcept>
 #include <string>
@@ -1606,6 +1607,15 @@ private:
    /// @since  1.46.0, 13.01.2021
    void internalCopy( const char* src) noexcept;
 
+   /// Returns if the given pointer points into the internal buffer of this
+   /// object, i.e. if the source of an operation is (a part of) this string
+   /// itself.
+   ///
+   /// @param[in]  ptr  The pointer to check.
+   /// @return  \c true if the pointer points into the internal buffer.
+   /// @since  1.46.0, 02.10.2026
+   bool isInternal( const char* ptr) const noexcept;
+
    /// Actual implementation of appending a string.
    /// The calling function must ensure that pos + count is within the given
    /// string.
@@ -1809,10 +1819,20 @@ template< size_t L> inline void FixedString< L>::internalCopy( const char* src)
 {
    if (mLength > 0)
    {
-      std::memcpy( mString, src, mLength);
+      // the source may be (a part of) this string itself
+      std::memmove( mString, src, mLength);
    } // end if
    mString[ mLength] = '\0';
 } // FixedString< L>::internalCopy
+
+
+template< size_t L> inline
+   bool FixedString< L>::isInternal( const char* ptr) const noexcept
+{
+   // std::less<> yields a total order also for pointers into different objects
+   return !std::less< const char*>()( ptr, mString)
+          && !std::less< const char*>()( &mString[ L], ptr);
+} // FixedString< L>::isInternal
 
 
 template< size_t L> template< size_t S>
@@ -2115,6 +2135,16 @@ template< size_t L>
    FixedString< L>& FixedString< L>::insert( size_t index, const char* str,
       size_t count) noexcept
 {
+
+   char  buffer[ L + 1];
+   if (isInternal( str))
+   {
+      // the source is a part of this string: the characters behind index are
+      // moved below, so insert from a copy
+      count = std::min( count, L - static_cast< size_t>( str - mString));
+      std::memcpy( buffer, str, count);
+      str = buffer;
+   } // end if
 
    if (index < mLength)
    {
@@ -2731,6 +2761,17 @@ template< size_t L> inline
 {
    if (pos1 > mLength)
       return *this;
+   char  buffer[ L + 1];
+   if (isInternal( str))
+   {
+      // the replacement is a part of this string: the characters are moved/
+      // overwritten below, so replace with a copy
+      str += pos2;
+      pos2 = 0;
+      count2 = std::min( count2, L - static_cast< size_t>( str - mString));
+      std::memcpy( buffer, str, count2);
+      str = buffer;
+   } // end if
    size_t  copy_len = count2;
    if (count1 >= mLength - pos1)
    {
